@@ -93,6 +93,8 @@ func projGen1(r *rand.Rand) *project {
 	p.Includes["inc1"] = "alphainc\nbravoinc\n##! comment\n  charlieinc\n"
 	p.Includes["inc2"] = "deltas\nechos\n"
 	p.Includes["nested"] = "##!> include inc2\nnestedword\n"
+	p.Includes["unix/deepinc"] = "     deepone\n   deeptwo\n" // a list in a subdirectory of include/
+	p.Includes["deepinc"] = "shallowone\n"                      // and its namesake directly in include/
 	p.Excludes["exc1"] = "bravoinc\n"
 	// two exclude files that define the same name with different values and so exclude different entries of the same
 	// include file (used by two assembly files of a third of the trees)
